@@ -432,6 +432,11 @@ fn sexp_candidates(e: &SExp) -> Vec<SExp> {
                 out.push(SExp::Div(Box::new(x2), *c));
             }
         }
+        SExp::Logic2(_, l, r) => {
+            // (operands are Boolean variables: replacing the node by one keeps the 0/1 type)
+            out.push((**l).clone());
+            out.push((**r).clone());
+        }
         SExp::Neg(x) | SExp::Abs(x) | SExp::Not(x) => {
             if !matches!(e, SExp::Not(_)) {
                 out.push((**x).clone());
